@@ -100,7 +100,7 @@ pub fn explore(ctx: &Ctx) {
 }
 
 pub fn replay(ctx: &Ctx, _clause: &str, case: &Value) {
-    let c: PtCase = serde_json::from_value(case.clone()).expect("case");
+    let c: PtCase = serde_json::from_value::<PtCase>(case.clone()).map(PtCase::fix).expect("case");
     let mut l = Local::default();
     // the method only matters through angles; recover it by matching the stored params
     let m = METHODS9.into_iter().find(|m| Params::new(*m).angles == c.params.angles && Params::new(*m).intervals == c.params.intervals).unwrap_or(Method::Mwl);
